@@ -127,6 +127,9 @@ type State struct {
 	fileName map[int]string
 	locks    map[string]lockTable
 	protected map[int]bool
+	script   threadScript
+	ctxChans map[int]bool // channels returned by ctx.Done()
+	wgCount  map[int]int
 }
 
 func (st *State) clone() *State {
@@ -154,6 +157,9 @@ func (st *State) clone() *State {
 	n.files, n.filePos, n.fileName = st.files, st.filePos, st.fileName
 	n.locks = st.locks
 	n.protected = st.protected
+	n.script = st.script
+	n.ctxChans = st.ctxChans
+	n.wgCount = st.wgCount
 	if st.ghost != nil {
 		n.ghost = map[string]int{}
 		for k, v := range st.ghost {
